@@ -153,7 +153,7 @@ class Run:
                     f.write(f"import {mod}\n" + "".join(f"#print axioms {n}\n" for n in names))
                 rc, out, dt = sh(["lake", "env", "lean", audit], cwd=LEAN, timeout=1800)
                 axs = {}
-                for m in re.finditer(r"'([^']+)' (does not depend on any axioms|depends on axioms: \[([^\]]*)\])", out):
+                for m in re.finditer(r"'(\S+)' (does not depend on any axioms|depends on axioms:\s*\[([^\]]*)\])", out):
                     axs[m.group(1)] = [] if m.group(3) is None else [a.strip() for a in m.group(3).split(",")]
                 missing = [n for n in names if n not in axs]
                 illegal = {n: a for n, a in axs.items() if not set(a) <= ALLOWED_AXIOMS}
